@@ -11,7 +11,7 @@ import (
 
 func init() {
 	register(&propDef{
-		ID: "C15", Level: "proof", Run: runC15,
+		ID: "C15", Level: "proof", Run: withShared(runC15, share{"C14", runC14, ruleIs("cursor-lockstep")}, share{"C10", runC10, ruleIs("one-hand")}),
 		Explanation: "Complete static argument over the two view functions, for every input state (reachable or not). (1) The secret set is derived, not listed: card-identity taint flows from element loads of Meta.Deck through the whole module (explicit flows: copies, slicing, append, calls, conversions, stores into fields); every field in GameState's type closure that receives a tainted value is card-bearing, the board is public by the property, everything else card-bearing is secret, and a pointer field whose target holds card-bearing fields is secret as a whole. (2) On every path of AsPlayer and AsObserver each table-level secret is overwritten with a fresh empty value; the per-player secrets are handled by a full-range loop over the players without early exit, on every path of whose body every per-player secret is overwritten with an empty value unless the path condition contains the viewer test (AsPlayer only) or the function path contains CurrentEvent == <terminal symbol> and the body path contains not-folded. (3) The write set of both functions is contained in the secret set and nothing is written on the viewer's own path. (4) The compared string is the symbol of the terminal event. A seat's secrets are wiped only on paths that carry seat != viewer, in every phase.",
 		Trusted:     append([]string{"encoding/json field rules (only exported fields of the state type are serialised)"}, commonTrusted...),
 		Assumptions: []string{"views are produced by these two functions (true for package actor)", "only explicit information flows matter (the hand category name is derived under control dependence and is covered as part of the Combination object)"},
